@@ -250,7 +250,8 @@ fn is_skip(meta_item: &MetaItem) -> bool {
             path_str == skip_annotation().as_str() || path_str == depr_skip_annotation().as_str()
         }
         MetaItemKind::List(ref l) => {
-            meta_item.has_name(sym::cfg_attr) && l.len() == 2 && is_skip_nested(&l[1])
+            // `cfg_attr(predicate, attr, ..)`: any of the attributes may be the skip.
+            meta_item.has_name(sym::cfg_attr) && l.iter().skip(1).any(is_skip_nested)
         }
         _ => false,
     }
